@@ -49,6 +49,8 @@ class Harness:
             if kind == "deadlock":
                 where = sorted({f"{_role(n)}@{_where(b, st)}" for n, b, st in info if n != "Main"})
                 out.append(dict(kind="deadlock", msg=f"deadlock: {info}", fp="deadlock " + " / ".join(where)))
+            elif kind == "fd-violation":
+                out.append(dict(kind="fd-violation", msg=f"descriptor misuse: {info}", fp=str(info)))
             elif kind == "horizon":
                 out.append(dict(kind="horizon", msg=f"step/time horizon exceeded: {info}", fp="horizon"))
         if not allow_errors:
@@ -276,6 +278,9 @@ def _explore_one(h, prefix, bound, stats):
         old = stats.violations.get(fp)
         if old is None or (cost_total, len(res.choices)) < (old["cost"], len(old["prefix"])):
             stats.violations[fp] = dict(v, prefix=_trim(res.choices), cost=cost_total, harness=h.name)
+    if len(res.points) < len(prefix):
+        raise vsched.DivergenceError(f"execution of {h.name} ended after {len(res.points)} choice points, "
+                                     f"the prefix has {len(prefix)}")
     cost = sum(res.points[i].costs[res.points[i].chosen] for i in range(len(prefix)))
     kids = []
     for i in range(len(prefix), len(res.points)):
